@@ -24,6 +24,7 @@ import traceback
 sys.path.insert(0, os.path.dirname(os.path.abspath(__file__)))
 import core  # noqa: E402
 import props  # noqa: E402
+import urlgen  # noqa: E402
 
 
 def chain_for(ops, idx):
@@ -271,6 +272,15 @@ def decide(prop, scratch, tier, seed, t0):
         notes.extend(ex.get("notes", []))
         nontrivial.update(ex.get("nontrivial", []))
 
+    # ---- 4b. failing-input search for a broken correspondence: every kind of disagreeing op is re-executed in ISOLATION
+    # (its minimal creating chain, in a fresh interpreter with cold caches) under EXTENDED observation (every accessor of every
+    # handle, the re-parsed string form, the pickled twin), and the property's oracle is asked again.  A fault whose symptom
+    # depends on which objects the long stream happened to share shows up here with a short, deterministic replay.
+    if disagreements and prop.oracle and not any(not any(k.get("status") == "known" and props.known_match(k, f) for k in core.load_known(pid))
+                                                   for f in failures):
+        found = isolated_search(prop, scratch, disagreements, core.load_known(pid), stats)
+        failures.extend(found)
+
     if os.environ.get("VERIF_VERBOSE"):
         seen = collections.Counter()
         for f in failures:
@@ -429,6 +439,60 @@ def shrink(prop, scratch, ops, backend, cls, budget=70):
                         break
     shrink.last_what = last_what[0] if cur != list(ops) else None
     return cur, runs
+
+
+def isolated_search(prop, scratch, disagreements, known, stats, limit=48):
+    picked = []
+    seen = set()
+    for d in disagreements:
+        f = d["op"].split("\t")
+        key = (d["stream"], d["backend"], f[0], f[3] if len(f) > 3 and f[0] in ("obs", "mod") else "", d["model"][:1], d["impl"][:1])
+        if key in seen and len(picked) >= 12:
+            continue
+        seen.add(key)
+        picked.append(d)
+        if len(picked) >= limit:
+            break
+    out = []
+    for d in picked:
+        full = d["full"]
+        keep = chain_for(full, d["n"])
+        ops = [to_placeholder(o) for o in renumber(full, keep)]
+        nh = sum(1 for o in ops if o.split("\t")[0] in props.CREATORS)
+        ext = list(ops)
+        for h in range(nh):
+            for name in (urlgen.OBS_ALL + ["val"]):
+                ext.append("obs\tB\t%d\t%s" % (h, name))
+        k = nh
+        for h in range(nh):
+            ext.append("rt\tB\t%d" % h)
+            ext.append("pkl\t%d" % h)
+            for name in (urlgen.OBS_ALL + ["val"]):
+                ext.append("obs\tB\t%d\t%s" % (k, name))
+                ext.append("obs\tB\t%d\t%s" % (k + 1, name))
+            k += 2
+        b = d["backend"]
+        b_ops = [o.replace("\tB\t", f"\t{b}\t") for o in ext]
+        io, err = core.run_impl(scratch, b_ops, b, timeout=300)
+        stats["isolated_reexecutions"] += 1
+        if io is None:
+            out.append({"what": f"worker process died re-executing {props.pretty(d['op'])} in isolation: {err[-300:]}", "class": "crash", "backend": b,
+                        "full": b_ops, "n": len(ops) - 1, "stream": d["stream"] + "/isolated"})
+            break
+        try:
+            fs = prop.oracle(b_ops, io, b)
+        except Exception:
+            continue
+        fs = [f for f in fs if not any(kk.get("status") == "known" and props.known_match(kk, f) for kk in known)]
+        if fs:
+            f = fs[0]
+            f.setdefault("backend", b)
+            f["stream"] = d["stream"] + "/isolated"
+            f["full"] = b_ops
+            f["found_by_isolation"] = True
+            out.append(f)
+            break
+    return out
 
 
 def make_replay(pid, f, how, tie_broken):
